@@ -40,7 +40,11 @@ func concSchema() *abs.Schema {
 	q := abs.Ann{Query: true}
 	file := &abs.File{Name: "cc/svc.proto", Pkg: "cc.v1", GoPkg: "scratch/gen/cc;cc", Generate: true}
 	file.Messages = []*abs.Message{
-		{Name: "Out", Fields: []*abs.Field{f("id", 1, "string", "one", abs.Ann{}), f("n", 2, "int64", "one", abs.Ann{})}},
+		// the response and one request carry a flattened child: they go through an emitted codec (MarshalJSON /
+		// UnmarshalJSON), which must treat the message it is given as read-only
+		{Name: "Out", Fields: []*abs.Field{f("id", 1, "string", "one", abs.Ann{}), f("n", 2, "int64", "one", abs.Ann{}),
+			{Name: "addr", Num: 3, Kind: "message", Card: "one", Ref: "cc.v1.Addr", Rules: nr(), Ann: abs.Ann{Flatten: true, Prefix: "addr_"}}}},
+		{Name: "Addr", Fields: []*abs.Field{f("city", 1, "string", "one", abs.Ann{}), f("zip", 2, "string", "one", abs.Ann{})}},
 		{Name: "Child", Fields: []*abs.Field{f("x", 1, "string", "one", abs.Ann{})}},
 		{Name: "ListReq", Fields: []*abs.Field{f("tag", 1, "string", "rep", q), f("limit", 2, "int32", "opt", q), f("view", 3, "string", "one", q)}},
 		{Name: "GetReq", Fields: []*abs.Field{f("id", 1, "string", "one", abs.Ann{}), f("verbose", 2, "bool", "one", q)}},
@@ -48,7 +52,8 @@ func concSchema() *abs.Schema {
 		{Name: "CreateReq", Fields: []*abs.Field{f("name", 1, "string", "one", abs.Ann{}), f("tags", 2, "string", "rep", abs.Ann{}),
 			{Name: "attrs", Num: 3, Kind: "string", Card: "map", KeyKind: "string", Rules: nr()}, f("count", 4, "int32", "opt", abs.Ann{}),
 			{Name: "child", Num: 5, Kind: "message", Card: "one", Ref: "cc.v1.Child", Rules: nr()}}},
-		{Name: "UpdateReq", Fields: []*abs.Field{f("id", 1, "string", "one", abs.Ann{}), f("name", 2, "string", "one", abs.Ann{}), f("note", 3, "string", "opt", abs.Ann{})}},
+		{Name: "UpdateReq", Fields: []*abs.Field{f("id", 1, "string", "one", abs.Ann{}), f("name", 2, "string", "one", abs.Ann{}), f("note", 3, "string", "opt", abs.Ann{}),
+			{Name: "origin", Num: 4, Kind: "message", Card: "one", Ref: "cc.v1.Addr", Rules: nr(), Ann: abs.Ann{Flatten: true, Prefix: "origin_"}}}},
 		{Name: "HealthReq", Fields: []*abs.Field{f("deep", 1, "bool", "one", q)}},
 		{Name: "EventsReq", Fields: []*abs.Field{f("since", 1, "int64", "one", q), f("kind", 2, "string", "rep", q)}},
 		{Name: "RecordReq", Fields: []*abs.Field{f("what", 1, "string", "one", abs.Ann{}), f("labels", 2, "string", "rep", abs.Ann{})}},
@@ -194,7 +199,12 @@ func (g *concGen) clientCall() *concCall {
 			}
 		case fd.Kind() == protoreflect.MessageKind:
 			c := dynamicpb.NewMessage(fd.Message())
-			c.Set(fd.Message().Fields().ByName("x"), protoreflect.ValueOfString(pick(r, "c1", "c2")))
+			cfs := fd.Message().Fields()
+			for k := 0; k < cfs.Len(); k++ {
+				if cfs.Get(k).Kind() == protoreflect.StringKind {
+					c.Set(cfs.Get(k), protoreflect.ValueOfString(pick(r, "c1", "c2")))
+				}
+			}
 			m.Set(fd, protoreflect.ValueOfMessage(c))
 		case fd.Kind() == protoreflect.StringKind:
 			m.Set(fd, protoreflect.ValueOfString(pick(r, "s1", "s2", "x y")))
@@ -453,7 +463,10 @@ func checkC17(c *chk.Ctx) {
 			id++
 			op := cc.op
 			op.Case, op.Call, op.Group, op.Par = id, 1, g, par
-			op.Handler = drv.HandlerCfg{Kind: "ok", RespType: "cc.v1.Out", RespB64: respFor(em.Built, cc.key)}
+			// equal calls get ONE response object (a handler answering from a cache) and, through the client, ONE
+			// request object (a caller issuing a prepared request from several goroutines)
+			op.Handler = drv.HandlerCfg{Kind: "ok", RespType: "cc.v1.Out", RespB64: respFor(em.Built, cc.key), Shared: true}
+			op.SharedReq = true
 			ops = append(ops, op)
 			insts = append(insts, &inst{id: id, cc: cc, grp: g, kind: kind})
 		}
@@ -610,5 +623,9 @@ func respFor(b *abs.Built, key string) string {
 	}
 	out.Set(out.Descriptor().Fields().ByName("id"), protoreflect.ValueOfString(fmt.Sprintf("resp-%d", h)))
 	out.Set(out.Descriptor().Fields().ByName("n"), protoreflect.ValueOfInt64(int64(h)))
+	afd := out.Descriptor().Fields().ByName("addr")
+	addr := out.Mutable(afd).Message()
+	addr.Set(afd.Message().Fields().ByName("city"), protoreflect.ValueOfString(fmt.Sprintf("city-%d", h%7)))
+	addr.Set(afd.Message().Fields().ByName("zip"), protoreflect.ValueOfString(fmt.Sprintf("%05d", h%100000)))
 	return base64.StdEncoding.EncodeToString(val.Det(out))
 }
